@@ -74,6 +74,13 @@ func directed() []struct {
 			Q("FindHead", 2, 4), Q("FindHead", 2, 2), U(4, 2, 3, 1, 2, bal, -1), H, Q("GetSlot", 6), Q("Fin"), Q("Chain", 3, 8), A(0, 4, 9), H}},
 		{"directed-gap-fin-sink-fails", ini(4, false), []Op{B(1, 2, 1, 0, 0), B(2, 3, 6, 0, 0), B(3, 4, 9, 2, 1), A(0, 4, 9), A(1, 4, 9), H,
 			U(4, 2, 3, 1, 2, bal, 3), H, Q("FindHead", 2, 4), Q("FindHead", 3, 8), Q("FindHead", 2, 3), Q("GetSlot", 2), Q("Fin"), B(4, 5, 10, 2, 1), A(2, 5, 10), H}},
+		// a newer justified checkpoint offered together with an OLDER finalized one whose root is the current finalized root (seeded
+		// trial C10-r3-2): root 2 at slot 2 is the checkpoint block of epochs 1 and 2; (2, epoch 2) is finalized with a real prune at the
+		// empty-slot node (2,8); then justified (3, epoch 3) comes with finalized (2, epoch 1): refused, nothing changes
+		{"directed-mixed-older-finalized", ini(4, false), []Op{B(1, 2, 2, 0, 0), B(2, 3, 9, 2, 2), A(0, 3, 9), H, U(3, 2, 2, 2, 2, bal, -1), H, Q("Fin"), Q("Just"),
+			B(3, 4, 13, 3, 2), A(1, 4, 13), H, U(4, 3, 3, 1, 2, bal, -1), Q("Fin"), Q("Just"), Q("Pin"), H, Q("GetSlot", 2), Q("Chain", 2, 8),
+			U(4, 3, 3, 0, 2, bal, -1), U(4, 3, 3, 1, 1, bal, -1), U(4, 3, 3, 1, 3, bal, -1), Q("Fin"), Q("Just"), H,
+			U(4, 1, 2, 3, 3, bal, -1), Q("Fin"), Q("Just"), H, U(4, 3, 3, 2, 2, bal, -1), Q("Fin"), Q("Just"), H}},
 		{"directed-nonviable-children", ini(4, false), []Op{B(1, 2, 1, 1, 0), B(2, 3, 2, 2, 0), B(2, 4, 2, 2, 0), A(0, 3, 2), A(1, 3, 2), H, Q("FindHead", 2, 1), S(4, 4, 2, 0), A(0, 4, 4), A(1, 4, 4), A(2, 4, 4),
 			U(1, 1, 2, 0, 1, bal, -1), H, Q("FindHead", 2, 1), Q("Chain", 2, 1), Q("FindHead", 4, 2)}},
 		{"directed-unknown-vote-target", ini(4, false), cat(chain, []Op{A(0, 2, 1), H, A(0, 6, 4), H, A(1, 3, 2), H, A(2, 3, 2), H, A(0, 6, 5), H, A(0, 6, 9), H, S(6, 9, 0, 0), A(0, 6, 9), H})},
@@ -138,6 +145,13 @@ func Run(e *Env, mode string) error {
 	if tot["gap_anchor_updates"] == 0 || tot["gap_start_heads"] == 0 {
 		return fmt.Errorf("generator guard: this run holds no update finalizing an empty-slot node whose root has blocks hanging off a lower node (%d) or no head from such a node (%d)",
 			tot["gap_anchor_updates"], tot["gap_start_heads"])
+	}
+	e.Extra["x_updates_with_newer_justified_and_older_finalized"] = tot["mixed_just_ahead_fin_behind"]
+	e.Extra["x_of_which_after_a_prune"] = tot["mixed_just_ahead_fin_behind_after_prune"]
+	e.Extra["x_updates_with_newer_finalized_and_older_or_equal_justified"] = tot["mixed_fin_ahead_just_behind"]
+	if tot["mixed_just_ahead_fin_behind"] == 0 || tot["mixed_just_ahead_fin_behind_after_prune"] == 0 || tot["mixed_fin_ahead_just_behind"] == 0 {
+		return fmt.Errorf("generator guard: this run holds no update mixing a newer justified with an older finalized checkpoint (%d, after a prune %d) or the reverse (%d)",
+			tot["mixed_just_ahead_fin_behind"], tot["mixed_just_ahead_fin_behind_after_prune"], tot["mixed_fin_ahead_just_behind"])
 	}
 	e.Extra["x_calls_that_did_not_return"] = tot["noreturn"]
 	e.Extra["x_calls_that_panicked"] = tot["panic"]
